@@ -24,12 +24,38 @@ Others == {O(Fine1, GridA, c, FALSE) : c \in {"native", "dual", "inplace", "obje
 \* callables that return (a view of) their argument: the returned object must still be the caller's own
 Views == {O(Ident, GridC, c, FALSE) : c \in {"native_view", "native_view_x", "native"}}
          \cup {O([kind |-> "poly", theta |-> QZero, poly |-> <<Mono(CInt(1), <<0, 1>>)>>], GridB, "native_view_last", FALSE)}
-MC_Objects == CASE IOEnv.HIST_SET = "deco-core" -> DecoCore
+\* SINGLETON AXES: all axes but one (or all) hold a single point, so one returned coordinate already has the full shape
+G4s == <<H(1, 8), H(3, 8), H(5, 8), H(7, 8)>>
+One == <<H(1, 2)>>
+S41 == <<G4s, One>>
+S14 == <<One, G4s>>
+S141 == <<One, G4s, One>>
+S11 == <<One, One>>
+S1 == <<One>>
+Ek(d, k) == [j \in 1..d |-> IF j = k THEN 1 ELSE 0]
+Coord(d, k) == [kind |-> "poly", theta |-> QZero, poly |-> <<Mono(CInt(1), Ek(d, k))>>]
+CCoord(d, k) == [kind |-> "poly", theta |-> QZero, poly |-> <<Mono(<<S(1), S(1)>>, Ek(d, k))>>]
+Const3(d) == [kind |-> "poly", theta |-> QZero, poly |-> <<Mono(CInt(3), [j \in 1..d |-> 0])>>]
+SingleCore == {O(Coord(2, 1), S41, "native_view", FALSE), O(Coord(2, 2), S41, "native_view", FALSE),
+               O(Coord(2, 2), S14, "native_view", FALSE), O(Coord(3, 2), S141, "native_view", FALSE),
+               O(Coord(2, 1), S11, "native_view", FALSE), O(Coord(1, 1), S1, "native_view", FALSE),
+               O(Coord(1, 1), S1, "native_view_x", FALSE), O(Coord(2, 1), S41, "vectorize_bare", FALSE),
+               O(Coord(2, 2), S14, "inplace", FALSE), O(Const3(3), S141, "native", FALSE), O(CCoord(2, 1), S41, "native", FALSE)}
+ShapesOf == {S41, S14, S141, S11, S1}
+SingleAll == UNION {{O(Coord(Len(g), k), g, c, FALSE) : k \in 1..Len(g), c \in {"native_view", "vectorize_bare", "inplace"}}
+                    \cup {O(Const3(Len(g)), g, c, FALSE) : c \in {"native", "vectorize_bare"}}
+                    \cup {O(CCoord(Len(g), 1), g, "native", FALSE)} : g \in ShapesOf}
+              \cup {O(Coord(1, 1), S1, "native_view_x", FALSE)}
+MC_Objects == CASE IOEnv.HIST_SET = "single" -> SingleCore
+                [] IOEnv.HIST_SET = "single-all" -> SingleAll
+                [] IOEnv.HIST_SET = "deco-core" -> DecoCore
                 [] IOEnv.HIST_SET = "deco-rest" -> DecoRest
                 [] IOEnv.HIST_SET = "view" -> Views
                 [] OTHER -> Others
 MC_MaxLen  == IF IOEnv.HIST_LEN = "3" THEN 3 ELSE 2
-MC_DTs     == IF IOEnv.HIST_DTS = "few" THEN {"f32", "f64", "c128"} ELSE {"int", "f32", "f64", "c64", "c128"}
+MC_DTs     == IF IOEnv.HIST_DTS = "few" THEN {"f32", "f64", "c128"}
+              ELSE IF IOEnv.HIST_DTS = "two" THEN {"f64", "c128"} ELSE {"int", "f32", "f64", "c64", "c128"}
+MC_Hows    == {"imul", "setitem", "asarray", "ufunc_out"}
 MC_Kinds   == {"inplace", "oop", "element"}
 
 ExportLine ==
